@@ -3,6 +3,9 @@
 #include "psc/error.h"
 #include "nodes/loop/control.h"
 #include "nodes/loop/for.h"
+#ifdef PSEUDOENGINE2_VERIF
+#include "verif.h"
+#endif
 
 ForLoopNode::ForLoopNode(const Token &token, const Token &identifier, Node &start, Node &stop, Node *step, PSC::Block *block)
     : Node(token),
@@ -62,6 +65,9 @@ std::unique_ptr<NodeResult> ForLoopNode::evaluate(PSC::Context &ctx) {
         (stepNegative && iteratorValue.value >= stopValue) || (!stepNegative && iteratorValue.value <= stopValue);
         iteratorValue.value += stepValue
     ) {
+#ifdef PSEUDOENGINE2_VERIF
+        PE2Verif::tick(token, ctx);
+#endif
         try {
             block->run(ctx);
         } catch (BreakErrSignal&) {
